@@ -382,6 +382,17 @@ package ast
 //@ struct ForInStmt
 //@ invariant !isStmtKind(self.Iter)
 
+//@ iface AstNode.String
+//@ pure
+
 //@ func (*Node).String
 //@ props C01
 //@ pure
+//@ requires n != nil
+
+// call arguments are never nil; a compiled grok attached to a call means the call went
+// through the full grok argument check
+//@ struct CallExpr
+//@ props C01 C05 C12
+//@ invariant forall i :: 0 <= i && i < len(self.Param) ==> self.Param[i] != nil
+//@ invariant self.Grok != nil ==> 2 <= len(self.Param) && len(self.Param) <= 3
